@@ -16,7 +16,7 @@ SPEC = dict(
         category='proof',
         text='Lean proves the emit side of the round trip for every list of cell records and each of the 6 valid option sets (the emitted bytes decode, under an independent strict '
              'reader, to the same records and root: c03_emit_decodes) and the input-form part for EVERY byte string: bytes.fromhex(b.hex()) = b, b64decode(b64encode(b)) = b, and the '
-             'detection order of Boc.__init__ cannot misclassify a BoC (the base64 text of each of the three magics has a non-hex character within its first two characters), so the hex and base64 texts '
+             'detection order of Boc.__init__ cannot misclassify a BoC (the base64 text of each of the three magics starts te6cc / aP9l8 / rMOnK, i.e. has a non-hex character within its first two characters), so the hex and base64 texts '
              'yield the same bytes as the raw bytes (c03_forms_hex, c03_forms_base64). The composition with the library\'s parser, parse(to_boc t) = t, is stated in Properties/C03.lean '
              'and is to be assembled from the parser model of C05 (Model/BocParse.lean); until then the parser side of this property is covered only by the oracle below. '
              'Every run round-trips generated DAGs through the LIBRARY alone: 6 option sets x 3 input forms x 3 entry points with a structural comparison of the whole DAG.',
